@@ -128,6 +128,15 @@ def family_maps(rng, vocab_words=()):
            {'k1': 'k2=v2', 'k2': 'v2'}, {'k1': 'v1&k2=v2', 'k2': 'other'}, {'a b': 'a%20b', 'a%20b': 'a b', 'a+b': 'a%2520b'},
            {'a': 'a=a', 'a=a': 'a'}, {'x': 'x=1&x=2', 'x=1': 'x'}, {'q': '?q=1', '?q': '1', '?': '?'}, {'?a': '?b?c?', 'b?': '??', 'c': 'd?e=f&g=h'},
            {'0': '0', '00': '1', '-1': '+1', '+1': '-1', '1e3': '1E3', '0x10': '16', ' 1': '1 ', '1.0': '1'}, {'é': 'é' * 7 + ' ' + 'é'}]
+    # texts that are PATH-like: dot-dot segments delimited by slashes or backslashes, drive letters, UNC, dot segments - a field is a
+    # field, whatever a path guard elsewhere in the server would make of it
+    pathish = ['..', '../x', '..\\docs\\report', 'C:\\data\\current\\..\\archive', 'a/../b', '\\..\\', '..\\', '\\..', './.', '.../...', '..;/x', '/etc/passwd', '\\\\host\\share',
+               '..%2f', '%2e%2e/', 'x\\..', 'x/..', '..\\..\\..', 'file:///../x', '~/../x', '.\\..\\.']
+    for i in range(0, len(pathish), 7):
+        chunk = pathish[i:i + 7]
+        ms.append({'p%d' % j: t for j, t in enumerate(chunk)})
+        ms.append({t: 'v%d' % j for j, t in enumerate(chunk)})
+    ms += [{'source': '..\\docs\\report'}, {'backup': 'C:\\data\\current\\..\\archive', 'x': '1'}, {'..': '..'}, {'..\\': '\\..'}]
     # the server's own parameter names and words
     own = ['name', 'lastModified', 'size', 'Name', 'Size', 'boundary', 'charset', 'filename', 'Content-Type', 'content-length', 'form-get-method',
            '/form-get-method', 'application/x-www-form-urlencoded', 'bytes', 'HTTP/1.1', 'GET', 'POST', 'localhost', 'http://localhost/', 'q']
